@@ -10,7 +10,7 @@
    greater than every in-bounds cell at Chebyshev distance 1 (`adjacent`). *)
 From Coq Require Import List ZArith QArith Qabs Bool Arith Sorted.
 Import ListNotations.
-From SV Require Import C06.Peaks C06.Lemmas.
+From SV Require Import C06.Peaks C06.Lemmas C06.PatchP.
 Local Open Scope Q_scope.
 
 (* (a) exactly the strict local maxima above threshold, with the correct sample index,
@@ -128,6 +128,70 @@ Theorem c06_offset_convex : forall r P dx dy,
 Proof. exact offset_bound. Qed.
 Print Assumptions c06_offset_convex.
 
+(* ------------------------------------------------------------------------------------
+   EVERY integral_patch_size p >= 1, odd or even (proofs: C06/PatchP.v).
+   `local_peaks_p cms thr p` is find_local_peaks(cms, thr, "integral", p) with the patch
+   taken by its size: `patch_p` / `gv_p` are the integer-centred window for odd p and,
+   for even p = 2h, the 2h x 2h samples at half-pixel positions, each the mean of the
+   2x2 cells around it (0 outside the map) — kornia's bilinear crop, exact over Q.
+   The largest grid coordinate is (p-1)/2 for both parities. *)
+
+(* for odd p = 2r+1 the size-indexed model IS the radius-indexed model above *)
+Theorem c06_patch_model_odd : forall cms thr r,
+  local_peaks_p cms thr (2 * r + 1) = local_peaks cms thr r.
+Proof. exact local_peaks_p_odd. Qed.
+Print Assumptions c06_patch_model_odd.
+
+(* (d) number, order, values, sample and channel indices are kept, for every p *)
+Theorem c06_refine_keeps_indices_any_patch : forall cms thr p,
+  map strip_refined (local_peaks_p cms thr p) = map strip_rough (local_peaks_rough cms thr).
+Proof. exact refine_keeps_indices_p. Qed.
+Print Assumptions c06_refine_keeps_indices_any_patch.
+
+Theorem c06_refine_uses_own_map_any_patch :
+  forall cms thr p C H W k x y v s c,
+  dims cms = (C, H, W) -> rect C H W cms ->
+  nth_error (local_peaks_rough cms thr) k = Some (x, y, v, s, c) ->
+  exists m, map_at cms s c = Some m /\ get m y x = Some v /\
+            nth_error (local_peaks_p cms thr p) k = Some (refine_at_p m x y p, v, s, c).
+Proof. exact refine_pointwise_p. Qed.
+Print Assumptions c06_refine_uses_own_map_any_patch.
+
+(* (e) half-patch bound for every p >= 1 outside the selector of F9 (window of radius p/2
+       around the peak without a negative cell, positive peak value): the refined point
+       exists and lies within (p-1)/2 < p/2 of its grid cell on each axis *)
+Theorem c06_refine_bound_any_patch_partial : forall m x y p, (1 <= p)%nat ->
+  selector_F9_p m y x p = false ->
+  exists px py, refine_at_p m x y p = Some (px, py) /\
+    Qabs (px - inject_Z (Z.of_nat x)) <= (inject_Z (Z.of_nat p) - 1) / 2 /\
+    Qabs (py - inject_Z (Z.of_nat y)) <= (inject_Z (Z.of_nat p) - 1) / 2 /\
+    (inject_Z (Z.of_nat p) - 1) / 2 < inject_Z (Z.of_nat p) / 2.
+Proof. exact refine_bound_p. Qed.
+Print Assumptions c06_refine_bound_any_patch_partial.
+
+(* F9 is not an artefact of odd sizes: the same witness with p = 4 moves by -7 px *)
+Theorem c06_refine_bound_refuted_even :
+  exists cms thr p x y v s c px py, Nat.even p = true /\
+    nth_error (local_peaks_rough cms thr) 0 = Some (x, y, v, s, c) /\
+    nth_error (local_peaks_p cms thr p) 0 = Some (Some (px, py), v, s, c) /\
+    inject_Z (Z.of_nat p) / 2 < Qabs (px - inject_Z (Z.of_nat x)).
+Proof. exact refine_bound_refuted_even. Qed.
+Print Assumptions c06_refine_bound_refuted_even.
+
+Theorem c06_nonneg_map_outside_F9_any_patch : forall m y x p v,
+  nonneg_map m -> get m y x = Some v -> 0 < v -> selector_F9_p m y x p = false.
+Proof. exact selector_F9_p_nonneg_map. Qed.
+Print Assumptions c06_nonneg_map_outside_F9_any_patch.
+
+(* integral regression of ANY non-negative patch with positive sum on the grid of a
+   p-patch is a convex combination of grid coordinates: within (p-1)/2 *)
+Theorem c06_offset_convex_any_patch : forall p P dx dy, (1 <= p)%nat ->
+  Forall (Forall (fun w => 0 <= w)) P -> 0 < qsum (map qsum P) ->
+  integral_offset (gv_p p) (gv_p p) P = Some (dx, dy) ->
+  Qabs dx <= (inject_Z (Z.of_nat p) - 1) / 2 /\ Qabs dy <= (inject_Z (Z.of_nat p) - 1) / 2.
+Proof. exact offset_bound_p. Qed.
+Print Assumptions c06_offset_convex_any_patch.
+
 (* observation on the modelled kornia behaviour (outside the property's domain): a
    border cell whose value does not exceed -1e4 is not reported *)
 Theorem c06_border_value_observation :
@@ -148,3 +212,12 @@ Proof. exact ex_hypotheses. Qed.
 
 Example ex_c06_outside_F9 : selector_F9 [[0;1;0];[1;4;2];[0;1;0]] 1 1 1 = false.
 Proof. vm_compute. reflexivity. Qed.
+
+(* even sizes: [[0,0,0,0],[0,1,3,0],[0,0,1,0],[0,0,0,0]], peak (x=2, y=1): p = 2 and p = 4 *)
+Example ex_c06_even_patch :
+  let m := [[0;0;0;0];[0;1;3;0];[0;0;1;0];[0;0;0;0]] in
+  selector_F9_p m 1 2 4 = false /\
+  match refine_at_p m 2 1 4 with Some (px, py) => Qeq_bool px (9 # 5) && Qeq_bool py (6 # 5) | None => false end = true /\
+  match refine_at_p m 2 1 2 with Some (px, py) => Qeq_bool px (31 # 16) && Qeq_bool py (17 # 16) | None => false end = true /\
+  epatch m 1 2 1 = [[(0+0+1+3)/4; (0+0+3+0)/4]; [(1+3+0+1)/4; (3+0+1+0)/4]].
+Proof. vm_compute. auto. Qed.
